@@ -357,4 +357,64 @@ extern "C"
             shim::unreg(p);
         __real_free(p);
     }
+    // the other allocation entry points a library routine may use for scratch space
+    void *__real_calloc(size_t, size_t);
+    void *__real_realloc(void *, size_t);
+    void *__real_aligned_alloc(size_t, size_t);
+    int __real_posix_memalign(void **, size_t, size_t);
+    void *__real_memalign(size_t, size_t);
+    void *__wrap_calloc(size_t a, size_t b)
+    {
+        void *p = __real_calloc(a, b);
+        if (p && shim::recording && !shim::busy)
+            shim::reg("lib-calloc", p, a * b);
+        return p;
+    }
+    void *__wrap_realloc(void *q, size_t n)
+    {
+        if (q && shim::recording && !shim::busy)
+            shim::unreg(q);
+        void *p = __real_realloc(q, n);
+        if (p && shim::recording && !shim::busy)
+            shim::reg("lib-realloc", p, n);
+        return p;
+    }
+    void *__wrap_aligned_alloc(size_t al, size_t n)
+    {
+        void *p = __real_aligned_alloc(al, n);
+        if (p && shim::recording && !shim::busy)
+            shim::reg("lib-aligned_alloc", p, n);
+        return p;
+    }
+    int __wrap_posix_memalign(void **out, size_t al, size_t n)
+    {
+        int rc = __real_posix_memalign(out, al, n);
+        if (rc == 0 && *out && shim::recording && !shim::busy)
+            shim::reg("lib-posix_memalign", *out, n);
+        return rc;
+    }
+    void *__wrap_memalign(size_t al, size_t n)
+    {
+        void *p = __real_memalign(al, n);
+        if (p && shim::recording && !shim::busy)
+            shim::reg("lib-memalign", p, n);
+        return p;
+    }
 }
+
+// operator new / new[] of the library's translation units end in malloc inside libstdc++, where the link-time wrap does not
+// reach: replace them so that blocks obtained with new are part of the snapshots too
+#include <new>
+extern "C" void *__wrap_malloc(size_t);
+extern "C" void __wrap_free(void *);
+extern "C" void *__wrap_aligned_alloc(size_t, size_t);
+void *operator new(size_t n) { void *p = __wrap_malloc(n ? n : 1); if (!p) throw std::bad_alloc(); return p; }
+void *operator new[](size_t n) { void *p = __wrap_malloc(n ? n : 1); if (!p) throw std::bad_alloc(); return p; }
+void *operator new(size_t n, std::align_val_t al) { void *p = __wrap_aligned_alloc((size_t)al, (n + (size_t)al - 1) / (size_t)al * (size_t)al); if (!p) throw std::bad_alloc(); return p; }
+void *operator new[](size_t n, std::align_val_t al) { return operator new(n, al); }
+void operator delete(void *p) noexcept { __wrap_free(p); }
+void operator delete[](void *p) noexcept { __wrap_free(p); }
+void operator delete(void *p, size_t) noexcept { __wrap_free(p); }
+void operator delete[](void *p, size_t) noexcept { __wrap_free(p); }
+void operator delete(void *p, std::align_val_t) noexcept { __wrap_free(p); }
+void operator delete[](void *p, std::align_val_t) noexcept { __wrap_free(p); }
